@@ -30,9 +30,12 @@ RightChain(d, k) == IF d = 0 THEN TLeaf(k) ELSE TNode(TLeaf(k), RightChain(d - 1
 
 Numbered == {Number(s, 1).tr : s \in UNION {Shapes(n) : n \in 1..MaxLeaves}}
 Trees == Numbered \cup {Relabel(tr, 1) : tr \in Numbered} \cup {Relabel(tr, 2) : tr \in Numbered}
-         \cup {LeftChain(d, 1) : d \in ChainDepths} \cup {RightChain(d, 1) : d \in ChainDepths}
+\* the deep chains are kept out of the set of shapes (normalising a large set that contains
+\* 129-deep records overflows TLC's stack) and appended as a sequence
+ChainSeq == LET D == SetToSeq(ChainDepths) IN
+            [q \in 1..(2 * Len(D)) |-> IF q <= Len(D) THEN LeftChain(D[q], 1) ELSE RightChain(D[q - Len(D)], 1)]
 
-TreeSeq == SetToSeq(Trees)
+TreeSeq == SetToSeq(Trees) \o ChainSeq
 Cases == [q \in 1..Len(TreeSeq) |-> [id |-> q, dl |-> DepthList(TreeSeq[q])]]
 ASSUME ndJsonSerialize(IOEnv.OUT, Cases)
 ASSUME PrintT("GEN " \o ToJson(<<"trees", Len(Cases)>>))
